@@ -56,12 +56,17 @@ type Segment struct {
 func (s *Segment) WriteTo(w io.Writer, _ chan struct{}) (int64, error) {
 	bw := bufio.NewWriter(w)
 
-	n, err := s.data.WriteTo(w)
+	// hash the data section while it is written: footer.crc holds the CRC of the
+	// data section for a built segment but the CRC of the whole file for a loaded one
+	cw := newCountHashWriter(w)
+	n, err := s.data.WriteTo(cw)
 	if err != nil {
 		return n, fmt.Errorf("error persisting segment: %w", err)
 	}
 
-	err = persistFooter(s.footer, bw)
+	footerCopy := *s.footer
+	footerCopy.crc = cw.Sum32()
+	err = persistFooter(&footerCopy, bw)
 	if err != nil {
 		return n, fmt.Errorf("error persisting segment footer: %w", err)
 	}
